@@ -1,4 +1,5 @@
 """C07 — exhaustiveness / usefulness analysis is exact (DESIGN.md section 4, C07)."""
+import os
 import re
 
 from gen import pats as G
@@ -43,9 +44,17 @@ def run(tier, seed, replay=None):
         'NonExhaustiveMatch / UselessPattern verdicts are compared with the model on the same abstract matrices',
         'gen/pats.py to_abstract (source pattern -> abstract pattern for well-typed patterns) mirrors '
         'main_checker.rs check_matching_pattern and is trusted; the independent value-enumeration oracle does not use it',
-        'not proved: cex = None iff exhaustive (tested: cex and useful agree inside the model on every case); '
-        'termination bound for the counterexample recursion; types with uninhabited payloads are outside the theorems '
-        '(hypothesis H_inhabited) and outside the generator',
+        'proved since round 2 (PatCexComplete / PatCexFuel / PatInhabited): cex = None iff useful(wildcard row) = false iff '
+        'exhaustive, the counterexample is a well-typed pattern that denotes at least one value and only unmatched values; '
+        'explicit fuel cex_fuel(P, n) = 1 + Msum(P) * (1 + Amax(P)) + n above which the answer of cex is defined and fuel '
+        'independent (Corr.fuel_for dominates it: model verdicts 2 and 4 cannot occur on match/let cases that pass hyps_ok)',
+        'uninhabited payload types: acceptance is proved sound for EVERY type environment (C07_accept_sound_any_types); '
+        'the converse needs H_inhabited and is refuted without it (C07_uninhabited_refuted: class Never(N(Never)), '
+        'class E(A, B(Never)), match { A -> .. } is reported non-exhaustive with counterexample B(_) which denotes no '
+        'value; the real checker behaves the same); such types are outside the generator',
+        'not proved: that the model\'s choice of the reported missing variant (first in declaration order) is the one the '
+        'real code picks (min over a HashMap) - only the verdict and the validity of the printed counterexample are compared; '
+        'the source-pattern conversion to_abstract (trusted, see above)',
     ]
     ck.assumptions = ['every type is inhabited (H_inhabited); patterns are well typed (checked per case by pat_okb)']
     check_props(ck, 'theories/C07/Props.v')
@@ -138,6 +147,16 @@ def run(tier, seed, replay=None):
                     ck.property_failure('reported counterexample `%s` has instance %r that an arm matches' % (cex_text, bad[0]), inp)
                 elif not inst:
                     ck.property_failure('reported counterexample `%s` denotes no value' % cex_text, inp)
+    # ---- the open finding: witness replay (prints KNOWN-FINDING while the checker has no inhabitation analysis)
+    wpath = '/verif/corpus/C07/001-uninhabited-payload.sam'
+    if os.path.exists(wpath) and only is None:
+        wr = run_jobs([{'id': 0, 'sources': {'Main': open(wpath).read()}, 'entries': ['Main'], 'compile': False, 'with_std': False}])[0]
+        flagged_w = any(e['kind'] == 'NonExhaustiveMatch' for e in wr['errors'])
+        try:
+            ck.known_witness('C07-uninhabited-payload', flagged_w, 'match over E(A, B(Never)) with the single arm A: %s'
+                             % ('rejected as non-exhaustive' if flagged_w else 'accepted'))
+        except KeyError:
+            pass
     # ---- layer B: model vs implementation verdicts
     # cases whose or-patterns expand to more than 3000 or-free rows are left to the value-enumeration oracle above (the
     # model's evaluation time is exponential in the nesting of or-patterns; counted, not hidden)
